@@ -401,6 +401,7 @@ func main() {
 			return fmt.Errorf("ServerHandle: no loop")
 		}
 		var hsteps []string
+		authTest := ""
 		for _, st := range hloop.Body.List {
 			src := p.Src(st)
 			switch {
@@ -409,7 +410,10 @@ func main() {
 				hsteps = append(hsteps, "read")
 			case strings.HasPrefix(src, "if err != nil { if failedAuthAttempts > 0 { return nil, conn.Addr{}, \"\", fmt.Errorf(") && strings.HasSuffix(src, `return nil, conn.Addr{}, "", fmt.Errorf("failed to read HTTP request: %w", err) }`):
 				hsteps = append(hsteps, "readErr")
-			case src == "if usernameByToken == nil { break }":
+			case len(hsteps) == 2 && strings.HasPrefix(src, "if ") && strings.HasSuffix(src, " { break }"):
+				// the "authentication disabled" test: its condition is a fact the theorems depend on
+				// (NewProxyServer signals "enabled" by a non-nil, possibly EMPTY map)
+				authTest = p.Src(st.(*ast.IfStmt).Cond)
 				hsteps = append(hsteps, "noAuthBreak")
 			case src == "var ok bool":
 			case src == "username, ok = serverHandleBasicAuth(req.Header, usernameByToken)":
@@ -426,6 +430,10 @@ func main() {
 				return fmt.Errorf("ServerHandle: unrecognised statement in the loop: %s", src)
 			}
 		}
+		if authTest == "" {
+			return fmt.Errorf("ServerHandle: the test for disabled authentication was not found")
+		}
+		l.StrDef("authDisabledTest", authTest, "condition under which ServerHandle skips authentication")
 		l.Raw("/-- order of the steps of ServerHandle's authentication loop -/\ndef handleSteps : List String := " + gen.LeanStrList(hsteps) + "\n")
 
 		// ---------- canned responses ----------
